@@ -376,6 +376,11 @@ where
         let actions_sv = SparseVec::<usize>::from(&actions, 0, usize::from(grm.tokens_len()));
         let gotos_sv = SparseVec::<usize>::from(&gotos, 0, usize::from(grm.rules_len()));
 
+        // The order in which conflicts were found depends on the iteration order of (randomly
+        // seeded) hash maps. Sort them so that the same grammar always gives the same table,
+        // e.g. when it is serialised into generated code.
+        reduce_reduce.sort_unstable();
+        shift_reduce.sort_unstable();
         let conflicts = if !(reduce_reduce.is_empty() && shift_reduce.is_empty()) {
             Some(Conflicts {
                 reduce_reduce,
